@@ -25,6 +25,7 @@ type Options struct {
 	HashFork      bool // valuehash.NewSHA256 on symbolic input: fork on equality with earlier inputs (concrete digests) instead of solver-level injectivity constraints
 	DelayBound    int // >= 0: delay-bounded scheduling with that many deviations from oldest-first; -1: off
 	SchedWidth    int // max alternatives explored at a free context switch (blocking point / goroutine exit); 0 = all
+	SelectFirst   bool // a select with several ready cases takes the first one in source order instead of exploring each (Go picks at random)
 	Trace         bool
 }
 
